@@ -1,11 +1,15 @@
 #!/usr/bin/env python3
 import json,sys
 pid=sys.argv[1]
+# optional: a worktree suffix (second-round seeds live in /tmp/seed/<ID><suffix>) and a one-line description of
+# an earlier change to stay away from (the agent still sees nothing of /verif)
+suffix=sys.argv[2] if len(sys.argv)>2 else ""
+avoid=sys.argv[3] if len(sys.argv)>3 else ""
 for l in open('/verif/properties.jsonl'):
     p=json.loads(l)
     if p['id']==pid: break
-wt=f"/tmp/seed/{pid}"
-print(f"""You are a careful Go engineer doing adversarial testing of a test-and-monitoring setup for the library centrifugal/centrifuge (a real-time messaging server library). You work ONLY inside the git worktree {wt} (a checkout of the library). Do not read or write anything under /verif or /repo, and do not look at other directories under /tmp/seed. Offline sandbox: no network. Use `export GOFLAGS=-mod=mod GOPROXY=off GOSUMDB=off` and the default `go` (it switches to go1.25 by itself inside the worktree).
+wt=f"/tmp/seed/{pid}{suffix}"
+print(f"""You are a careful Go engineer doing adversarial testing of a test-and-monitoring setup for the library centrifugal/centrifuge (a real-time messaging server library). You work ONLY inside the git worktree {wt} (a checkout of the library). Do not read or write anything under /verif or /repo, and do not look at other directories under /tmp/seed. Offline sandbox: no network. Use `export GOFLAGS=-mod=mod GOPROXY=off` (do NOT set GOSUMDB or GOTOOLCHAIN: that breaks the automatic switch to the cached go1.25 toolchain) and the default `go`. There is no Redis server in this sandbox (Redis-backed tests are skipped), so make your change in code that runs without Redis. Never use `git stash`.
 
 The library is supposed to satisfy this property:
 
@@ -26,4 +30,4 @@ Deliverables, all inside {wt}/SEED/ :
   patch.diff   — `git diff` of the source change only (not the demo test)
   demo_test.go — a copy of the demonstration test file (say in a comment which package directory it belongs to)
   NOTES.md     — what the change is, why it breaks the property, what it needs in order to manifest, and the exact commands + outputs (pass/fail) you observed for the existing tests and for the demo with and without the change.
-Leave the worktree with your change applied and the demo test in place. Do not commit. Keep your final message short: 5-10 lines summarising the change, what it needs to manifest, and the test results.""")
+{("Somebody else has already tried this regression for the same property, so pick a DIFFERENT mechanism, function and scenario (ideally a different clause of the statement): " + avoid + chr(10)) if avoid else ""}Leave the worktree with your change applied and the demo test in place. Do not commit. Keep your final message short: 5-10 lines summarising the change, what it needs to manifest, and the test results.""")
